@@ -642,12 +642,7 @@ Qed.
 
 (** * Part C — the lookup under re-encoding *)
 
-Lemma lit_agree_refl pat : forall segs, lit_agree pat segs segs = true.
-Proof.
-  induction pat as [|[l|n|n] p IH]; intros [|s r]; simpl; try reflexivity.
-  - rewrite Bool.eqb_reflx. apply IH.
-  - apply IH.
-Qed.
+
 
 Section Lookup.
 
@@ -665,7 +660,7 @@ Definition crel0 (c c' : cand) : Prop :=
   In (cd_rule c) rules /\ In (cd_route c) (r_routes (cd_rule c)).
 
 Definition crel (segs segs' : list string) (c c' : cand) : Prop :=
-  crel0 c c' /\ cd_pat c = cd_pat c' /\ lit_agree (cd_pat c) segs segs' = true.
+  crel0 c c' /\ cd_pat c = cd_pat c' /\ rmatch (cd_pat c) segs = true /\ rmatch (cd_pat c) segs' = true.
 
 Lemma filter_map_rel {A B A2 B2} (R : A -> B -> Prop) (R2 : A2 -> B2 -> Prop) f g l l' :
   Forall2 R l l' -> (forall x y, R x y -> orel R2 (f x) (g y)) ->
@@ -685,19 +680,20 @@ Qed.
 Lemma step_lit_rel s s' r r' c c' : crel (s :: r) (s' :: r') c c' ->
   orel (crel r r') (step_lit s c) (step_lit s' c').
 Proof.
-  intros (H0 & Hp & Ha). unfold step_lit. rewrite <- Hp.
+  intros (H0 & Hp & Ha & Ha'). unfold step_lit. rewrite <- Hp.
   destruct (cd_pat c) as [|[l|n|n] p]; try constructor.
-  simpl in Ha. apply andb_true_iff in Ha as [Ha1 Ha2]. apply Bool.eqb_prop in Ha1. rewrite <- Ha1.
-  destruct (String.eqb l s); constructor.
+  cbn [rmatch] in Ha, Ha'. apply andb_true_iff in Ha as [A1 A2]. apply andb_true_iff in Ha' as [A1' A2'].
+  rewrite A1, A1'. constructor.
   destruct H0 as (E1 & E2 & E3 & E4 & E5). unfold crel, crel0; simpl. rewrite <- E1, <- E2. splits; auto.
 Qed.
 
 Lemma step_wild_rel s s' r r' c c' : reenc s s' -> lc_ok ci s = true -> lc_ok ci s' = true ->
   crel (s :: r) (s' :: r') c c' -> orel (crel r r') (step_wild s c) (step_wild s' c').
 Proof.
-  intros Rs G G' (H0 & Hp & Ha). unfold step_wild. rewrite <- Hp.
+  intros Rs G G' (H0 & Hp & Ha & Ha'). unfold step_wild. rewrite <- Hp.
   destruct (cd_pat c) as [|[l|n|n] p]; try constructor.
-  simpl in Ha. destruct H0 as (E1 & E2 & E3 & E4 & E5). unfold crel, crel0; simpl. rewrite <- E1, <- E2.
+  cbn [rmatch] in Ha, Ha'. apply andb_true_iff in Ha as [A1 A2]. apply andb_true_iff in Ha' as [A1' A2'].
+  destruct H0 as (E1 & E2 & E3 & E4 & E5). unfold crel, crel0; simpl. rewrite <- E1, <- E2.
   splits; auto. apply Forall2_app; [assumption|]. constructor; [|constructor]. unfold cap_rel; simpl; auto.
 Qed.
 
@@ -705,7 +701,7 @@ Lemma step_catch_all_rel rest rest' segs segs' c c' :
   reenc rest rest' -> lc_ok ci rest = true -> lc_ok ci rest' = true ->
   crel segs segs' c c' -> orel (crel [] []) (step_catch_all rest c) (step_catch_all rest' c').
 Proof.
-  intros Rs G G' (H0 & Hp & Ha). unfold step_catch_all. rewrite <- Hp.
+  intros Rs G G' (H0 & Hp & Ha & Ha'). unfold step_catch_all. rewrite <- Hp.
   destruct (cd_pat c) as [|[l|n|n] [|x p]]; try constructor.
   destruct H0 as (E1 & E2 & E3 & E4 & E5). unfold crel, crel0; simpl. rewrite <- E1, <- E2.
   splits; auto. apply Forall2_app; [assumption|]. constructor; [|constructor]. unfold cap_rel; simpl; auto.
@@ -768,6 +764,55 @@ Proof.
     + intros x y (H0 & _). apply ok_agree; assumption.
 Qed.
 
+(** candidates whose remaining path expression does not match the remaining
+    segments never yield a result: the lookup may drop them at any time *)
+Lemma filter_filter_map {A B} (g : A -> bool) (h : B -> bool) (f : A -> option B) l :
+  (forall x y, f x = Some y -> g x = h y) ->
+  filter h (filter_map f (filter g l)) = filter h (filter_map f l).
+Proof.
+  intro H. induction l as [|x l IH]; [reflexivity|]. simpl. destruct (g x) eqn:Eg; simpl.
+  - destruct (f x); simpl; rewrite IH; reflexivity.
+  - destruct (f x) as [y|] eqn:Ef; [|exact IH]. simpl. rewrite <- (H _ _ Ef), Eg. exact IH.
+Qed.
+
+Lemma filter_map_all {A B} (g : A -> bool) (f : A -> option B) l :
+  (forall x y, f x = Some y -> g x = true) -> filter_map f (filter g l) = filter_map f l.
+Proof.
+  intro H. induction l as [|x l IH]; [reflexivity|]. simpl. destruct (g x) eqn:Eg; simpl.
+  - rewrite IH. reflexivity.
+  - destruct (f x) as [y|] eqn:Ef; [|exact IH]. rewrite (H _ _ Ef) in Eg. discriminate.
+Qed.
+
+Definition live (segs : list string) (c : cand) : bool := rmatch (cd_pat c) segs.
+
+Lemma dfs_prune segs : forall cs, dfs ok cs segs = dfs ok (filter (live segs) cs) segs.
+Proof.
+  induction segs as [|s r IH]; intro cs.
+  - simpl. f_equal. symmetry. apply filter_map_all. intros x y. unfold at_end, live.
+    destruct (cd_pat x); [reflexivity | discriminate].
+  - cbn [dfs].
+    assert (E1 : dfs ok (filter_map (step_lit s) (filter (live (s :: r)) cs)) r = dfs ok (filter_map (step_lit s) cs) r).
+    { rewrite (IH (filter_map (step_lit s) cs)), (IH (filter_map (step_lit s) (filter (live (s :: r)) cs))).
+      f_equal. apply filter_filter_map. intros x y. unfold step_lit, live.
+      destruct (cd_pat x) as [|[l|n|n] p]; try discriminate. destruct (String.eqb l s) eqn:El; [|discriminate].
+      intro E; inversion E; subst; simpl. rewrite El. reflexivity. }
+    assert (E2 : is_empty s = false ->
+                 dfs ok (filter_map (step_wild s) (filter (live (s :: r)) cs)) r = dfs ok (filter_map (step_wild s) cs) r).
+    { intro Ne. rewrite (IH (filter_map (step_wild s) cs)), (IH (filter_map (step_wild s) (filter (live (s :: r)) cs))).
+      f_equal. apply filter_filter_map. intros x y. unfold step_wild, live.
+      destruct (cd_pat x) as [|[l|n|n] p]; try discriminate.
+      intro E; inversion E; subst; simpl. rewrite Ne. reflexivity. }
+    rewrite E1. destruct (dfs ok (filter_map (step_lit s) cs) r); [reflexivity|].
+    destruct (is_empty s) eqn:Ne.
+    + destruct (is_empty (join_with "/" (s :: r))) eqn:Nj; [reflexivity|]. f_equal. symmetry. apply filter_map_all.
+      intros x y. unfold step_catch_all, live. destruct (cd_pat x) as [|[l|n|n] [|? p]]; try discriminate.
+      intros _. cbn [rmatch]. rewrite Nj. reflexivity.
+    + rewrite (E2 eq_refl). destruct (dfs ok (filter_map (step_wild s) cs) r); [reflexivity|].
+      destruct (is_empty (join_with "/" (s :: r))) eqn:Nj; [reflexivity|]. f_equal. symmetry. apply filter_map_all.
+      intros x y. unfold step_catch_all, live. destruct (cd_pat x) as [|[l|n|n] [|? p]]; try discriminate.
+      intros _. cbn [rmatch]. rewrite Nj. reflexivity.
+Qed.
+
 End Lookup.
 
 (** ** the guards of the findings, as conditions on the input *)
@@ -786,10 +831,22 @@ Proof.
 Qed.
 
 Lemma guard_F1_false rules p p' r t : guard_F1 rules p p' = false -> In r rules -> In t (r_routes r) ->
-  lit_agree (rt_pat t) (segs_of p) (segs_of p') = true.
+  rmatch (rt_pat t) (segs_of p) = rmatch (rt_pat t) (segs_of p').
 Proof.
   intros G Hr Ht. pose proof (existsb_false _ _ G r Hr) as H. simpl in H.
-  pose proof (existsb_false _ _ H t Ht) as H2. simpl in H2. apply negb_false_iff in H2. exact H2.
+  pose proof (existsb_false _ _ H t Ht) as H2. simpl in H2. apply negb_false_iff in H2.
+  apply Bool.eqb_prop in H2. exact H2.
+Qed.
+
+Lemma Forall2_filter_diag {A} (R : A -> A -> Prop) (f g : A -> bool) l :
+  (forall x, In x l -> f x = g x) -> (forall x, In x l -> f x = true -> g x = true -> R x x) ->
+  Forall2 R (filter f l) (filter g l).
+Proof.
+  induction l as [|x l IH]; intros H1 H2; [constructor|]. simpl.
+  rewrite <- (H1 x (or_introl eq_refl)). destruct (f x) eqn:Ef.
+  - constructor; [apply H2; [left; reflexivity | assumption | rewrite <- (H1 x (or_introl eq_refl)); assumption] |].
+    apply IH; intros; [apply H1 | apply H2]; auto; right; assumption.
+  - apply IH; intros; [apply H1 | apply H2]; auto; right; assumption.
 Qed.
 
 (** ** the route matchers and Execute agree on related inputs *)
@@ -960,14 +1017,17 @@ Proof.
     pose proof (path_segs_reenc p p' R) as S.
     destruct (path_segs p) as [segs|] eqn:Sp; destruct (path_segs p') as [segs'|] eqn:Sp'; inversion S as [|? ? S2]; subst;
       [|constructor].
+    rewrite (dfs_prune _ segs), (dfs_prune _ segs').
     apply dfs_rel.
     - intros c c' Hc. eapply cand_ok_agree; eassumption.
     - apply Forall2_with; [assumption| |].
       + eapply path_segs_lc; [eapply reenc_wf_l; eassumption | eassumption | eassumption].
       + eapply path_segs_lc; [eapply reenc_wf_r; eassumption | eassumption | eassumption].
-    - apply Forall2_diag. intros c Hc. apply in_cands_of in Hc as (r & t & Hr & Ht & ->).
-      unfold crel, crel0; simpl. splits; auto; try constructor.
-      pose proof (guard_F1_false rules _ _ r t G1 Hr Ht) as A. unfold segs_of in A. rewrite Sp, Sp' in A. exact A. }
+    - apply Forall2_filter_diag.
+      + intros c Hc. apply in_cands_of in Hc as (r & t & Hr & Ht & ->). unfold live; simpl.
+        pose proof (guard_F1_false rules _ _ r t G1 Hr Ht) as A. unfold segs_of in A. rewrite Sp, Sp' in A. exact A.
+      + intros c Hc L1 L2. apply in_cands_of in Hc as (r & t & Hr & Ht & ->).
+        unfold crel, crel0, live in *; simpl in *. splits; auto; constructor. }
   assert (Lu : lc_ok (fx2 fx) (u_rawpath u) = true) by (rewrite Ep; assumption).
   assert (Lu' : lc_ok (fx2 fx) (u_rawpath u') = true) by (rewrite Ep'; assumption).
   destruct F as [|c c' (E1 & E2 & E3 & _)].
@@ -1042,7 +1102,7 @@ Proof.
   - vm_compute. tauto.
 Qed.
 
-Definition w_rules_F3 := [one_rule "pp" Off [Lit "api"; Wild "p1"] [("p1", "admin")]].
+Definition w_rules_F3 := [one_rule "pp" Off [Lit "api"; Wild "p1"] [("p1", PExact "admin")]].
 
 Theorem F3_refuted : exists rules p p',
   reenc p p' /\ guard_F1 rules p p' = false /\ guard_F2 p p' = false /\ guard_F3 rules = true /\
@@ -1060,7 +1120,7 @@ Theorem F2_F3_repaired_no_witness :
 Proof. split; vm_compute; auto. Qed.
 
 Definition w_rules_ok :=
-  [one_rule "users" NoDecode [Lit "api"; Lit "users"; Wild "id"] [("id", "j%2Fd")];
+  [one_rule "users" NoDecode [Lit "api"; Lit "users"; Wild "id"] [("id", PExact "j%2Fd")];
    one_rule "any" On [Lit "api"; CatchAll "rest"] []].
 
 (** the hypotheses of [reencoding_invariant] are satisfiable by a request that is
